@@ -14,8 +14,9 @@ against the scripted peer:
 * `Reader` is the environment handed to `Model.HttpRes.runAllR` as its oracle: the buffer *geometry* of
   `netbuf_read.c` (`cap`/`bufpos`/`datalen`, no bytes: the bytes a handler sees are `rest.take b` of the
   stream inside `runAllR`) plus the scripted network (`recvOne`), the caller (cancel points) and the writer
-  (a failing `send`).  `Proofs/HttpStep.lean` shows that the geometry and every answer are those of the proved
-  `Model.NetbufRead` driven over the same script.
+  (a failing `send`).  `Proofs/HttpStep.lean`: no byte of the stream is lost or invented and EOF is answered only
+  with the whole stream received (`readerWait_spec`); `Proofs/HttpReader.lean`: the geometry after consume + wait
+  and after a `recv` with data is that of the proved `Model.NetbufRead` (`C08.exec_reader_refines_netbuf_partial`).
 * `specAgrees` / `rangeOk` decide the L1 part of a `run` line: the decoded response must be the generated
   value (C09), resp. within the promised ranges (C08).
 
